@@ -251,7 +251,7 @@ fn defs() -> &'static [CheckDef] {
                 props: Props::of(&["C19"]),
                 scens: vec![Scen { name: "dns-resolver", weight: 1, run: dns_scn }],
                 rule: "one run = a real DNS socket (1-3 concurrent A/AAAA/mDNS queries) polled exactly per poll_at against a scripted server that answers each wire query with a response that is valid or wrong in exactly one respect (txid, destination port, source port, source address, question name/type, QDCOUNT, QR), NXDomain, truncated at a random byte, with backward/forward/self compression pointers, CNAME chains, delayed, duplicated or withheld; non-trivial = >= 1 query started and >= 2 responses sent; distinct = event-log hash",
-                assumptions: vec!["DNS_MAX_SERVER_COUNT = 1 in the shipped configuration (fail-over to a second server needs the wide build)", "termination bound 40 s per query (one server: transmissions at 0,1,3,7 s, server timeout at 10 s checked at the 15 s retransmission)"],
+                assumptions: vec!["DNS_MAX_SERVER_COUNT = 1 in the shipped configuration (fail-over to a second server needs the wide build)", "termination bound 40 s per query (per destination: transmissions at 0,1,3,7 s and the 10 s time-out; at most two destinations - the two mDNS groups of a dual-stack node - in the shipped configuration)"],
                 real: REAL,
                 stub: STUB,
                 quick_s: 20.0,
